@@ -188,3 +188,38 @@ def eqv(a, b):
 
 
 canon = bitcanon
+
+
+# ---------------------------------------------------------------------- equality of word formulas by evaluation on sample words
+_SAMPLES = None
+
+
+def sample_words():
+    """Deterministic sample of 64-bit words: 0, all ones, every single bit, every complement of a single bit, edges, and pseudo-random words."""
+    global _SAMPLES
+    if _SAMPLES is None:
+        ws = [0, (1 << 64) - 1] + [1 << i for i in range(64)] + [((1 << 64) - 1) ^ (1 << i) for i in range(0, 64, 7)]
+        ws += [0x00000000000000FF, 0xFF00000000000000, 0x0101010101010101, 0x8080808080808080, 0x00FF00FF00FF00FF, 0xAAAAAAAAAAAAAAAA, 0x5555555555555555]
+        x = 0x9E3779B97F4A7C15
+        for _ in range(96):
+            x ^= (x << 13) & ((1 << 64) - 1)
+            x ^= x >> 7
+            x ^= (x << 17) & ((1 << 64) - 1)
+            ws.append(x)
+        _SAMPLES = ws
+    return _SAMPLES
+
+
+def word_equal(eng, a, b, leaf, samples=None, extra_env=None):
+    """True if the two extracted word formulas evaluate to the same constant for every sample value of the opaque word `leaf`
+    (the formulas are data read from the source; nothing of the repository runs); None if a sample does not evaluate to a constant."""
+    from . import terms as T
+    for w in (samples if samples is not None else sample_words()):
+        env = dict(extra_env or {})
+        env[leaf] = ("int", w, "u64")
+        x, y = T.concretize(eng, a, env), T.concretize(eng, b, env)
+        if not (T.is_const(x) and T.is_const(y)):
+            return None
+        if x[1] != y[1]:
+            return False
+    return True
